@@ -2,6 +2,7 @@
 # seeded_run.sh <name> <check-id>... : apply seeded/<name>/patch.diff to /repo, run the checks, undo
 name=$1; shift
 cd /repo && git status --short | grep -v '^??' && { echo "REPO-DIRTY"; exit 2; }
+rm -rf /tmp/evidence.keep && cp -r /verif/evidence /tmp/evidence.keep
 git -C /repo apply /verif/seeded/$name/patch.diff || exit 2
 for p in "$@"; do
   out=$(cd /verif && ./check $p --tier ${TIER:-quick} 2>&1); rc=$?
@@ -9,3 +10,5 @@ for p in "$@"; do
   echo "$out" | grep -E '^  predicate=' | sort | uniq -c | head -4
 done
 git -C /repo checkout -- . ; git -C /repo status --short | grep -v '^??'
+# evidence written while /repo was modified is not evidence about the unchanged tree
+rm -rf /verif/evidence && mv /tmp/evidence.keep /verif/evidence; rm -rf /verif/replays
